@@ -238,8 +238,21 @@ func PlayMulti(beh M, rng *rand.Rand, proj *Projection) ([][]M, error) {
 	s.releaseAll()
 	if I(beh, "_i")%3 == 2 {
 		// a connection accepted after the others are in their sessions: it starts up like the others did
+		// (the first of them has gone by then), and writes a row: with a type map of its own, not one that served
+		// another connection before
+		if !conns[0].ServerClosed() {
+			conns[0].WaitQuiet(WaitTimeout) //nolint
+			conns[0].CloseClient()
+			if conns[0].WaitClosed(WaitTimeout) != nil {
+				x.Log.Append(mem.Ev{"k": "wedged", "conn": conns[0].ID})
+			}
+		}
 		late := x.Dial()
 		late.Send(pgw.Startup(pgw.Version30, [][2]string{{"user", "late"}, {"application_name", "late-batch"}}, true))
+		late.WaitQuiet(WaitTimeout) //nolint
+		x.scripts["q950"] = M{"id": 950, "parse": "ok", "stmts": []any{M{"id": 950, "cols": []any{M{"name": "late", "oid": 25}}, "oids": []any{},
+			"prog": []any{M{"op": "row", "cells": []any{M{"c": "v", "_val": "late", "val": "s:late"}}}, M{"op": "complete", "tag": "LATE"}, M{"op": "ret", "r": "nil"}}}}}
+		late.Send(pgw.Query("q950"))
 		late.WaitQuiet(WaitTimeout) //nolint
 		defer func() { late.CloseClient(); late.WaitClosed(WaitTimeout) }() //nolint
 	}
